@@ -1,5 +1,6 @@
 SPECIFICATION TraceSpec
 CONSTANTS
+  SampleT = 1
   Keys = {"a", "b", "c", "d", "e", "f"}
   Vals = {0, 1, 2}
   MaxList = 7
